@@ -291,8 +291,8 @@ Example c11_tokens_nonvacuous :
 Proof. reflexivity. Qed.
 
 (* ============================== source ties ========================================== *)
-(* The Python text of read_ctm / write_ctm (their open-file branches), token_to_transcript [and transcript_to_token, see
-   below] is translated on every run (harness/py2coq -> PV.Gen.C11Src) and interpreted by PV.MiniPy.Interp with the
+(* The Python text of read_ctm / write_ctm (their open-file branches), token_to_transcript and transcript_to_token
+   are translated on every run (harness/py2coq -> PV.Gen.C11Src) and interpreted by PV.MiniPy.Interp with the
    external calls of PV.C11.SrcRun.ext11; the theorems below say that this interpreted source computes exactly what
    C11.Model computes, for all inputs (notes/C11_tie_report.md; encodings and what ext11 assumes: C11/SrcRun.v). *)
 From PV Require MiniPy.Syntax MiniPy.Interp C11.SrcRun C11.Tie.
@@ -348,11 +348,48 @@ Theorem c11_source_to_transcript_is_model : forall cols rows i2t fs,
 Proof. exact Tie.to_transcript_tie. Qed.
 Print Assumptions c11_source_to_transcript_is_model.
 
+(* transcript_to_token = Model.transcript_to_token: every transcript (plain tokens and (token, start, end) triples, int or
+   str tokens), token2id None or any dict, any unk, both settings of skip_frame_times, frame_shift_ms None or a rational
+   that is not 0; the tensor returned holds the model's rows ((R, 3), or (R,) ids with skip_frame_times), TypeError is
+   raised exactly when the model raises it (a str id) *)
+Theorem c11_source_to_token_is_model : forall tr t2i fs unk skip,
+  TieTokTry.fs_ok fs ->
+  match transcript_to_token tr t2i fs unk skip with
+  | Ok rows => exists st, SrcRun.run_to_token (Syntax.VList (map SrcRun.enc_item tr)) (SrcRun.enc_t2i t2i)
+                            (SrcRun.enc_fs fs) (SrcRun.enc_unk unk) skip
+                          = Interp.Ok (TieTok.enc_rows skip rows) st
+  | Raise e => exists st, SrcRun.run_to_token (Syntax.VList (map SrcRun.enc_item tr)) (SrcRun.enc_t2i t2i)
+                            (SrcRun.enc_fs fs) (SrcRun.enc_unk unk) skip
+                          = Interp.Exc (SrcRun.exn_name e) st
+  end.
+Proof. exact Tie.to_token_tie. Qed.
+Print Assumptions c11_source_to_token_is_model.
+
+(* composed with c11_tokens_roundtrip - a statement purely about the interpreted source: transcript -> tensor -> transcript
+   returns the same tokens with times within one frame shift (vocabulary token2id injective, id2token its inverse, d > 0) *)
+Theorem c11_source_tokens_roundtrip : forall t2i d unk tr,
+  (0 < d)%Q -> NoDup (map snd t2i) ->
+  Forall (fun a => (exists i, assoc tk_eqb (item_tok a) t2i = Some i) /\ item_times_ok a) tr ->
+  exists rows stt,
+    SrcRun.run_to_token (Syntax.VList (map SrcRun.enc_item tr)) (SrcRun.enc_t2i (Some t2i)) (SrcRun.enc_fs (Some d))
+      (SrcRun.enc_unk unk) false = Interp.Ok (SrcRun.enc_ref 3 rows) stt /\
+    exists ws stb,
+      SrcRun.run_to_transcript (SrcRun.enc_ref 3 rows) (SrcRun.enc_i2t (Some (swap_pairs t2i))) (SrcRun.enc_fs (Some d))
+        = Interp.Ok (Syntax.VList ws) stb /\
+      Forall2 (fun a v => exists b, item_close d a b /\ TieTokBack.item_rel b v) tr ws.
+Proof. exact Tie.source_tokens_roundtrip. Qed.
+Print Assumptions c11_source_tokens_roundtrip.
+
 (* the hypotheses are met and the conclusion is not empty: the two utterances of c11_ctm_nonvacuous, written and read
-   back by the interpreted source *)
+   back by the interpreted source; the transcript of c11_tokens_nonvacuous converted to a tensor and back *)
 Example c11_source_nonvacuous :
   SrcRun.src_write_ctm_file (with_times [([98], [([120], 5, 7); ([121], 5, 6)]); ([97], [([122], 0, 0)])]) (inr [65])
   = Some (Ok [([97], [65], 0, 0, [122]); ([98], [65], 5, 1, [121]); ([98], [65], 5, 2, [120])])
   /\ SrcRun.src_read_ctm_file [([97], [65], 0, 0, [122]); ([98], [65], 5, 1, [121]); ([98], [65], 5, 2, [120])] None
-     = Some (Ok [([97], [([122], 0, 0)]); ([98], [([121], 5, 6); ([120], 5, 7)])]).
-Proof. split; vm_compute; reflexivity. Qed.
+     = Some (Ok [([97], [([122], 0, 0)]); ([98], [([121], 5, 6); ([120], 5, 7)])])
+  /\ SrcRun.src_to_token_rows [Timed (TStr [97]) (1 # 2) (81 # 100); Plain (TStr [98])]
+       (Some [(TStr [97], 12); (TStr [98], 7)]) (Some (10 # 1)) None false
+     = Some (Ok [(12, 50, 81); (7, -1, -1)])
+  /\ SrcRun.src_to_transcript_items 3 [(12, 50, 81); (7, -1, -1)] (Some [(12, TStr [97]); (7, TStr [98])]) (Some (10 # 1))
+     = Some [Timed (TStr [97]) (1 # 2) (81 # 100); Plain (TStr [98])].
+Proof. repeat split; vm_compute; reflexivity. Qed.
